@@ -4,10 +4,11 @@ EXTENDS ProcContract, TraceLib
 
 Trace == LoadTrace("trace.ndjson")
 Starts == {i \in 1..Len(Trace) : Trace[i].ev = "reset"}
-VARIABLES tr, l, now, items, closeCalled, closeRet, deqs
-vars == <<tr, l, now, items, closeCalled, closeRet, deqs>>
+VARIABLES tr, l, now, items, closeCalled, closeRet, deqs,
+          win       \* the loop is between the entry of execute() and the point after its pop: only then can it commit to an item
+vars == <<tr, l, now, items, closeCalled, closeRet, deqs, win>>
 
-TInit == /\ tr \in Starts /\ l = tr /\ now = 0 /\ items = << >> /\ closeCalled = FALSE /\ closeRet = FALSE /\ deqs = {}
+TInit == /\ tr \in Starts /\ l = tr /\ now = 0 /\ items = << >> /\ closeCalled = FALSE /\ closeRet = FALSE /\ deqs = {} /\ win = FALSE
 HasNext == l + 1 <= Trace[tr].end
 Ev == Trace[l + 1]
 Step == l' = l + 1 /\ UNCHANGED tr
@@ -18,42 +19,48 @@ EnqCall == /\ HasNext /\ Ev.ev = "enq_call" /\ Step
                   dead == closeRet                       \* Enqueue after Close returned is ignored
               IN items' = (Ev.id :> [NewItem(Ev.key, Ev.at, concurrentSameKey \/ removalInFlight \/ closeCalled) EXCEPT !.ex = IF dead THEN "done" ELSE "no"])
                           @@ StartRemoval(items, Ev.key, <<"e", Ev.id>>)
-           /\ UNCHANGED <<now, closeCalled, closeRet, deqs>>
+           /\ UNCHANGED <<now, closeCalled, closeRet, deqs, win>>
 EnqRet == /\ HasNext /\ Ev.ev = "enq_ret" /\ Step
           /\ items' = [FinishRemoval(items, <<"e", Ev.id>>, now) EXCEPT ![Ev.id].enq = "ret"]
-          /\ UNCHANGED <<now, closeCalled, closeRet, deqs>>
+          /\ UNCHANGED <<now, closeCalled, closeRet, deqs, win>>
 DeqCall == /\ HasNext /\ Ev.ev = "deq_call" /\ Step
            /\ items' = StartRemoval(items, Ev.key, <<"d", Ev.d>>)
            /\ deqs' = deqs \cup {<<Ev.d, Ev.key>>}
-           /\ UNCHANGED <<now, closeCalled, closeRet>>
+           /\ UNCHANGED <<now, closeCalled, closeRet, win>>
 DeqRet == /\ HasNext /\ Ev.ev = "deq_ret" /\ Step
           /\ items' = FinishRemoval(items, <<"d", Ev.d>>, now)
           /\ deqs' = {x \in deqs : x[1] # Ev.d}
-          /\ UNCHANGED <<now, closeCalled, closeRet>>
-Adv == /\ HasNext /\ Ev.ev = "adv" /\ Step /\ now' = Ev.now /\ UNCHANGED <<items, closeCalled, closeRet, deqs>>
+          /\ UNCHANGED <<now, closeCalled, closeRet, win>>
+Adv == /\ HasNext /\ Ev.ev = "adv" /\ Step /\ now' = Ev.now /\ UNCHANGED <<items, closeCalled, closeRet, deqs, win>>
 
-Pop(i) == /\ HasNext /\ CanPop(items, now, closeRet, i)
+(* The commit window.  All decision points of the Processor are gates in these runs, so the harness knows when the loop   *)
+(* passes the entry of execute() (w_open, recorded just before the gate is released) and when it arrives at the point    *)
+(* after the pop or back at the top of the loop (w_close).  The pop - the instant the Processor commits to an item -    *)
+(* lies inside that window: an item that was surely there, earlier and due when the window opened must be taken first.  *)
+WOpen == /\ HasNext /\ Ev.ev = "w_open" /\ Step /\ win' = TRUE /\ UNCHANGED <<now, items, closeCalled, closeRet, deqs>>
+WClose == /\ HasNext /\ Ev.ev = "w_close" /\ Step /\ win' = FALSE /\ UNCHANGED <<now, items, closeCalled, closeRet, deqs>>
+Pop(i) == /\ HasNext /\ win /\ CanPop(items, now, closeRet, i)
           /\ items' = [items EXCEPT ![i].ex = "popped"]
-          /\ UNCHANGED <<tr, l, now, closeCalled, closeRet, deqs>>
+          /\ UNCHANGED <<tr, l, now, closeCalled, closeRet, deqs, win>>
 CbStart == /\ HasNext /\ Ev.ev = "cbstart" /\ Step
            /\ Ev.id \in DOMAIN items /\ items[Ev.id].ex = "popped"
            /\ items' = [items EXCEPT ![Ev.id].ex = "running"]
-           /\ UNCHANGED <<now, closeCalled, closeRet, deqs>>
+           /\ UNCHANGED <<now, closeCalled, closeRet, deqs, win>>
 CbEnd == /\ HasNext /\ Ev.ev = "cbend" /\ Step
          /\ items[Ev.id].ex = "running"
          /\ items' = [items EXCEPT ![Ev.id].ex = "done"]
-         /\ UNCHANGED <<now, closeCalled, closeRet, deqs>>
-CloseCall == /\ HasNext /\ Ev.ev = "close_call" /\ Step /\ closeCalled' = TRUE /\ UNCHANGED <<now, items, closeRet, deqs>>
+         /\ UNCHANGED <<now, closeCalled, closeRet, deqs, win>>
+CloseCall == /\ HasNext /\ Ev.ev = "close_call" /\ Step /\ closeCalled' = TRUE /\ UNCHANGED <<now, items, closeRet, deqs, win>>
 CloseRet == /\ HasNext /\ Ev.ev = "close_ret" /\ Step
             /\ \A j \in DOMAIN items : items[j].ex \notin {"popped", "running"}   \* no callback is running
-            /\ closeRet' = TRUE /\ UNCHANGED <<now, items, closeCalled, deqs>>
+            /\ closeRet' = TRUE /\ UNCHANGED <<now, items, closeCalled, deqs, win>>
 (* at rest no surely-live item may be due: it would be stranded *)
 Quiescent == /\ HasNext /\ Ev.ev = "quiescent" /\ Step
              /\ (closeCalled \/ \A j \in SurelyLive(items) : items[j].at > now)
              /\ \A j \in DOMAIN items : items[j].ex # "popped"
-             /\ UNCHANGED <<now, items, closeCalled, closeRet, deqs>>
+             /\ UNCHANGED <<now, items, closeCalled, closeRet, deqs, win>>
 
-TNext == EnqCall \/ EnqRet \/ DeqCall \/ DeqRet \/ Adv \/ CbStart \/ CbEnd \/ CloseCall \/ CloseRet \/ Quiescent
+TNext == WOpen \/ WClose \/ EnqCall \/ EnqRet \/ DeqCall \/ DeqRet \/ Adv \/ CbStart \/ CbEnd \/ CloseCall \/ CloseRet \/ Quiescent
          \/ \E i \in DOMAIN items : Pop(i)
 TSpec == TInit /\ [][TNext]_vars
 Done == IF l = Trace[tr].end THEN PrintT(<<"DONE", tr>>) ELSE TRUE
